@@ -20,6 +20,7 @@ type GridResult struct {
 	Key        string // distinctness key (defaults to Name)
 	Nontrivial bool   // by the driver's stated rule
 	V          []*Violation
+	Digest     string // optional: digest of the state the case ended in (used by the C15 differential)
 }
 
 // GridDriver enumerates and evaluates the cases of one grid.
